@@ -84,7 +84,7 @@ func runFixturesImpl(root string) error {
 	fc.Obs = nil
 	boundsRule(fc, "FX-BND", []string{"pkg/fixture/bnd"}, 5)
 	v = verdicts()
-	if err := expect("BND", v, []string{"BadTestBeforeClamp", "BadIndexOtherLength", "BadIndexNoLowerBound"}, []string{"GoodClamp", "GoodIndex"}); err != nil {
+	if err := expect("BND", v, []string{"BadTestBeforeClamp", "BadIndexOtherLength", "BadIndexNoLowerBound"}, []string{"GoodClamp", "GoodIndex", "GoodLoopWindow"}); err != nil {
 		return err
 	}
 	if v["GoodClamp"] != "discharged" || v["GoodIndex"] != "discharged" {
